@@ -373,6 +373,8 @@ class Executor:
 
     def project(self, v, p):
         if p[0] == "deref":
+            if v[0] == "opaque" and getattr(self, "opaque_fields", False):
+                return ("opaque", v[1] + "_p", "pointee of " + str(v[2])[:40])
             if v[0] != "ref":
                 raise MirError("deref of non-reference %r" % (v,))
             inner = v[1][0]
